@@ -119,6 +119,16 @@ def run(ck, spec, prop, tier, seed, scratch, replay=None, budget=None):
             body = json.load(fh)
         case = body["case"]
         sub = case.get("sub_property")
+        if case.get("oracle") == "package-init":
+            # a generated package panicked while registering itself: start a battery binary again
+            binp = engine_bin(ck, spec, scratch, BATTERY[0][0])
+            report = scratch.path("init-replay-%d.json" % int(time.time() * 1e6))
+            p = subprocess.run([binp, "-prop", BATTERY[0][1][0], "-tier", "quick", "-report", report, "-budget", "1s"], cwd=scratch.dir, env=env,
+                               stdout=subprocess.PIPE, stderr=subprocess.STDOUT, text=True)
+            ip = None if os.path.exists(report) else ck.init_panic_report("C12", p.stdout)
+            if ip is not None:
+                return 1, p.stdout, ip
+            return 0, p.stdout, {"violations": [], "evaluations": 2, "distinct_nontrivial": 2, "samples": [case]}
         if not sub:
             # generation/compile-phase findings: re-derive from the prepared corpus
             hits = [v for v in spec["c12_violations"] if v["key"] == body["key"]]
@@ -159,7 +169,8 @@ def run(ck, spec, prop, tier, seed, scratch, replay=None, budget=None):
             if rep is None:
                 ip = ck.init_panic_report("C12", p.stdout)
                 if ip is not None:
-                    violations.extend(ip["violations"])
+                    have = set(v["key"] for v in violations)
+                    violations.extend(v for v in ip["violations"] if v["key"] not in have)
                     break
             if rep is None or p.returncode not in (0, 1) or rep.get("internal"):
                 ck.log(p.stdout[-3000:])
